@@ -105,7 +105,9 @@ def gen_notation(rng, p_plain=0.45):
     P, pu = PERIODS[rng.randrange(len(PERIODS))]
     d = rng.choice([None, None, 's', 'ms', 'us', 'ns'])
     # the default unit must be able to express one tick as a finite decimal (stamps and plain bounds)
-    nt = {'period': P, 'pu': pu, 'du': d, 'tol': rng.choice([0.1, 0.1, 0.2, 0.05]), 'style': 'random'}
+    nt = {'period': P, 'pu': pu, 'du': d, 'tol': rng.choice([0.1, 0.1, 0.2, 0.05]), 'style': 'random',
+          # how the configuration calls are made: period unit left out when it is the documented default 's'; call order
+          'omit_unit': rng.random() < 0.5, 'sampling_first': rng.random() < 0.4, 'force_sampling': rng.random() < 0.3}
     if not feasible(1, nt, ''):
         nt['du'] = pu
     return nt
